@@ -63,7 +63,8 @@ pub fn replay(line: &str, out: &mut Out) {
 fn clpz_prog(r: &mut Rng) -> Prog {
     let nv = 1 + r.below(3);
     let var = |r: &mut Rng| T::Var(r.below(nv));
-    let num = |r: &mut Rng| T::Num(r.range(-5, 5) as isize);
+    // zero is the edge value of every quotient arm: one number in four
+    let num = |r: &mut Rng| T::Num(if r.chance(1, 4) { 0 } else { r.range(-5, 5) as isize });
     let op = |r: &mut Rng| if r.chance(2, 5) { num(r) } else { var(r) };
     let mut body: Vec<PG> = (0..1 + r.below(3))
         .map(|_| if r.chance(1, 2) { PG::PlusZ(op(r), op(r), op(r)) } else { PG::TimesZ(op(r), op(r), op(r)) })
@@ -93,6 +94,10 @@ fn relation_prog(r: &mut Rng) -> Prog {
 }
 
 pub fn run(seed: u64, thorough: bool, out: &mut Out) {
+    // every sign / zero / groundness pattern of a single CLP(Z) constraint, operands ground before or after posting
+    for p in crate::c19::edge_singles() {
+        record(&p, true, "clpz_edge", out);
+    }
     let n = if thorough { 5000 } else { 250 };
     for i in 0..n {
         let mut r = Rng::new(seed, 23, i);
